@@ -80,6 +80,32 @@ def m_option_map(it, st, args, info):
             outs.append((s2, SOME(r)))
     return outs
 
+def m_option_transpose(it, st, args, info):
+    """Option<Result<T, E>> -> Result<Option<T>, E>"""
+    x = strip_named(it.deref(st, args[0])); outs = []
+    for s, v in it.fork_variants(st, x, ['Some', 'None'], info['site']):
+        if v == 'None': outs.append((s, OK(NONE))); continue
+        r = strip_named(variant_payload(x, 'Some'))
+        for s2, v2 in it.fork_variants(s, r, ['Ok', 'Err'], info['site']):
+            outs.append((s2, OK(SOME(variant_payload(r, 'Ok'))) if v2 == 'Ok' else ERR(variant_payload(r, 'Err'))))
+    return outs
+
+def m_result_transpose(it, st, args, info):
+    """Result<Option<T>, E> -> Option<Result<T, E>>"""
+    x = strip_named(it.deref(st, args[0])); outs = []
+    for s, v in it.fork_variants(st, x, ['Ok', 'Err'], info['site']):
+        if v == 'Err': outs.append((s, SOME(ERR(variant_payload(x, 'Err'))))); continue
+        r = strip_named(variant_payload(x, 'Ok'))
+        for s2, v2 in it.fork_variants(s, r, ['Some', 'None'], info['site']):
+            outs.append((s2, SOME(OK(variant_payload(r, 'Some'))) if v2 == 'Some' else NONE))
+    return outs
+
+def m_option_flatten(it, st, args, info):
+    x = strip_named(it.deref(st, args[0])); outs = []
+    for s, v in it.fork_variants(st, x, ['Some', 'None'], info['site']):
+        outs.append((s, NONE if v == 'None' else variant_payload(x, 'Some')))
+    return outs
+
 def m_result_map(it, st, args, info):
     x = strip_named(it.deref(st, args[0]))
     outs = []
@@ -628,6 +654,9 @@ EXACT = {
     'std::result::Result::<T, E>::ok': m_result_ok,
     'std::result::Result::<T, E>::map': m_result_map,
     'std::option::Option::<T>::map': m_option_map,
+    'std::option::Option::<std::result::Result<T, E>>::transpose': m_option_transpose,
+    'std::result::Result::<std::option::Option<T>, E>::transpose': m_result_transpose,
+    'std::option::Option::<std::option::Option<T>>::flatten': m_option_flatten,
     'std::option::Option::<T>::unwrap_or': mk_unwrap_or('Some', 'None', 'value'),
     'std::option::Option::<T>::unwrap_or_else': mk_unwrap_or('Some', 'None', 'else'),
     'std::option::Option::<T>::unwrap_or_default': mk_unwrap_or('Some', 'None', 'default'),
